@@ -19,17 +19,22 @@ func Main(args []string) int {
 	verif := fs.String("verif", "/verif", "verification directory (evidence, known findings)")
 	dump := fs.String("dump", "", "debug: dump origins and edge facts of the function with this key")
 	list := fs.Bool("list", false, "debug: list function keys")
+	dumpErr := fs.Bool("dump-errdiscipline", false, "debug: census of the error-discipline rule over every module function")
 	replay := fs.String("replay", "", "re-decide the obligation recorded in this replay file")
 	noEvidence := fs.Bool("no-evidence", false, "do not write evidence files (used by self-tests and seeded runs)")
 	verbose := fs.Bool("v", false, "print every obligation")
 	if err := fs.Parse(args); err != nil {
 		return 2
 	}
-	if *dump != "" || *list {
+	if *dump != "" || *list || *dumpErr {
 		p, err := Load(LoadOptions{Repo: *repo})
 		if err != nil {
 			fmt.Fprintln(os.Stderr, "load:", err)
 			return 2
+		}
+		if *dumpErr {
+			DumpErrorDiscipline(p)
+			return 0
 		}
 		if *list {
 			for _, f := range p.Funcs {
